@@ -53,6 +53,13 @@ CHECKS["C05"] = dict(
     note="Trusted: UFL reduced coefficients / original positions; reference evaluator (see C01).",
     design="5/C05",
 )
+CHECKS["C04"] = dict(
+    category="exploration",
+    technique="Hypothesis-generated UFL expressions x point sets x all local facets x all permutation codes; differential against the reference evaluator with descriptor-driven packing; convention-free existential oracle over facet symmetries for permutation codes",
+    text="Generated expressions (value rank 0-3, argument rank 0/1, mixed/Piola/blocked elements, gradients of nonlinear scalars, constants removed by differentiation) are evaluated at generated cell or facet points; A[point][component][dof] must equal the reference value, descriptor fields must equal the spec, and for facet points every permutation code must correspond to a facet symmetry of the right parity, injectively. Sampling over expressions/points; all facets and codes of each sampled facet case are covered.",
+    note="Trusted: the UFL algorithms FFCx itself requests for expressions (algebra lowering, derivatives, pull-backs, geometry lowering), basix.",
+    design="5/C04",
+)
 PENDING = {}
 
 def main():
